@@ -64,7 +64,9 @@ Qed.
    positional constraints the C++ hands to the network simplex (next selected: x_next >= x_c + w_c;
    predecessor not selected: x_c >= boundaryBefore(c); successor not selected: x_c + w_c <=
    boundaryAfter(c)) keeps every row legal.  The solver itself (lemon) is not modelled: that its
-   output satisfies these constraints is re-checked with `shift_ok` on every driven shift pass. *)
+   output satisfies these constraints is re-checked with `shift_ok` on every driven shift pass, and follows
+   from dual feasibility of its potentials (c02_shift_dual_feasible_legal below), which the proved
+   certificate checker of C05 (ShiftLp.shift_cert_ok) re-checks on every driven shift pass. *)
 Theorem c02_shift_guard_sound : forall s xs, Inv s -> shift_ok s xs = true -> Inv (apply_shift s xs).
 Proof. exact shift_inv. Qed.
 
@@ -73,11 +75,45 @@ Example c02_shift_nonvacuous :
   apply_shift ex_state [(0%nat, 1); (1%nat, 8)] <> ex_state.
 Proof. vm_compute. repeat split; discriminate. Qed.
 
+(* [F] the ordering/boundary constraints ARE the positional arcs of the flow problem: for every row structure,
+   every set of selected cells and every vector of node potentials, all reduced costs
+   cost + pi(src) - pi(tgt) of the positional arcs runShiftsOnCells builds (ShiftLp.pos_arcs: next selected ->
+   arc next->c of cost -w_c; predecessor not selected -> arc c->fixed of cost -boundaryBefore(c); successor not
+   selected -> arc fixed->c of cost boundaryAfter(c) - w_c) are >= 0  IF AND ONLY IF  the positions
+   potential(c) - potential(fixed) pass the guard shift_ok.  ./check C02 compares the arcs the C++ built with
+   ShiftLp.shift_net on the same state for every driven shift pass *)
+Require Import CV.Hpwl CV.ShiftLp CV.ShiftLpProofs.
+Theorem c02_shift_constraints_are_dual_feasibility : forall d sel pi,
+  dual_feasible (pos_arcs d sel) pi = true <-> shift_ok d (positions_of sel pi) = true.
+Proof. exact pos_arcs_feasible_iff. Qed.
+
+(* [F] hence legality after the shift pass follows from DUAL FEASIBILITY of the solver's potentials alone (no
+   optimality needed), for all states: any potentials whose reduced costs on the network of the pass are >= 0
+   give positions that keep every row legal *)
+Theorem c02_shift_dual_feasible_legal : forall d xm sel pi,
+  Inv d -> dual_feasible (n_arcs (shift_net d xm sel)) pi = true -> Inv (apply_shift d (positions_of sel pi)).
+Proof. exact shift_dual_feasible_inv. Qed.
+
+(* non-vacuity: ex_state with cells 0 and 1 of row 0 selected and a net joining them: potentials placing them
+   at 1 and 8 are dual feasible, potentials that push cell 1 over the row end are not *)
+Example c02_shift_lp_nonvacuous :
+  let xm := incr_build [0; 4; 1; 0] [[(0%nat, 0); (1%nat, 1)]] in
+  let pi1 := fun n => match n with NCell 0 => 1 | NCell 1 => 8 | NL _ => 1 | NU _ => 9 | _ => 0 end in
+  let pi2 := fun n => match n with NCell 0 => 1 | NCell 1 => 9 | NL _ => 1 | NU _ => 10 | _ => 0 end in
+  pos_arcs ex_state [0%nat; 1%nat] = [(NCell 1, NCell 0, -3); (NCell 0, NFixed, 0); (NFixed, NCell 1, 8)] /\
+  dual_feasible (n_arcs (shift_net ex_state xm [0%nat; 1%nat])) pi1 = true /\
+  positions_of [0%nat; 1%nat] pi1 = [(0%nat, 1); (1%nat, 8)] /\
+  dual_feasible (n_arcs (shift_net ex_state xm [0%nat; 1%nat])) pi2 = false /\
+  shift_ok ex_state (positions_of [0%nat; 1%nat] pi2) = false.
+Proof. vm_compute. repeat split; reflexivity. Qed.
+
 Print Assumptions c02_moves_keep_rows_legal.
 Print Assumptions c02_inv_reads.
 Print Assumptions c02_refused_move_is_noop.
 Print Assumptions c02_place_orientation.
 Print Assumptions c02_shift_guard_sound.
+Print Assumptions c02_shift_constraints_are_dual_feasibility.
+Print Assumptions c02_shift_dual_feasible_legal.
 
 (* ====================================================================================== *)
 (* The CONCRETE model (DESIGN.md section 4, C02 item 2, `concrete_refines_abstract`).
